@@ -1,6 +1,7 @@
 package props
 
 import (
+	"context"
 	"fmt"
 	"os"
 	"os/exec"
@@ -132,6 +133,34 @@ type C7Call struct {
 	Name  string
 	Vals  []interface{}
 	Avail []bool
+	// Store selects the context of a call on a variable-free program:
+	// "none": a Ctx without a VariableFetcher carrying only a request-scoped
+	// context.Context; "own": a Ctx with its own fresh MapVarFetcher.
+	Store string
+	Level int64 // the request-scoped value the `memo` operator reads
+}
+
+type c7levelKey struct{}
+
+// c7memo is an operator that reads a request-scoped value from ctx.Ctx and
+// memoises it in the evaluation context's variable store when there is one
+// (a store that belongs to that one context).
+func c7memo(ctx *eval.Ctx, _ []eval.Value) (eval.Value, error) {
+	const key = "memo:level"
+	hasStore := ctx != nil && ctx.VariableFetcher != nil
+	if hasStore && ctx.Cached(eval.UndefinedVarKey, key) {
+		return ctx.Get(eval.UndefinedVarKey, key)
+	}
+	var level int64
+	if ctx != nil && ctx.Ctx != nil {
+		level, _ = ctx.Ctx.Value(c7levelKey{}).(int64)
+	}
+	if hasStore {
+		if err := ctx.Set(eval.UndefinedVarKey, key, level); err != nil {
+			return nil, err
+		}
+	}
+	return level, nil
 }
 
 // C7Buf is a list binding whose backing array the caller REUSES between the
@@ -192,12 +221,12 @@ var c7keepMu sync.Mutex
 
 type C7Prog struct {
 	SeqOnly bool // the calls share a caller-side buffer: sequential histories only
-	Light bool // many scheduling points per call: explore pairs only, smaller preemption bound
-	Name  string
-	Src   string
-	Vars  []term.VarDecl
-	Opt   drive.Opt
-	Calls []C7Call
+	Light   bool // many scheduling points per call: explore pairs only, smaller preemption bound
+	Name    string
+	Src     string
+	Vars    []term.VarDecl
+	Opt     drive.Opt
+	Calls   []C7Call
 }
 
 func c7vars(names ...string) []term.VarDecl {
@@ -288,6 +317,28 @@ func C07Corpus() []*C7Prog {
 		{Name: "strings-fast", Src: "(if (= s0 \"s\") (q b1 b2) (h b1 b2 b3))", Vars: c7vars("s0", "b1", "b2", "b3"), Opt: ev(allOn, 1),
 			Calls: []C7Call{evalc("Eval#s", "s", true, false, true), evalc("Eval#t", "t", true, false, true), tryc("TryEval#b2-unavailable", []bool{true, true, false, true}, "t", true, true, true), insp[1]}},
 	}
+	// a variable-free program whose operator keeps per-request state in the
+	// evaluation context's own store; contexts without a fetcher and with
+	// their own fresh store
+	{
+		st := func(kind, name, store string, level int64) C7Call {
+			return C7Call{Kind: kind, Name: name, Store: store, Level: level}
+		}
+		for oi, o := range []drive.Opt{off, allOn} {
+			ps = append(ps, &C7Prog{Name: fmt.Sprintf("context-store-operator-%d", oi), Src: "(if (>= (memo) 5) (+ (memo) 100) (- (memo) 100))", Opt: o,
+				Calls: []C7Call{st("eval", "Eval#no-store-9", "none", 9), st("eval", "Eval#no-store-1", "none", 1), st("tryeval", "TryEval#no-store-7", "none", 7),
+					st("tryeval", "TryEval#no-store-2", "none", 2), st("eval", "Eval#own-store-8", "own", 8), st("eval", "Eval#own-store-3", "own", 3), st("tryeval", "TryEval#own-store-4", "own", 4)}})
+		}
+	}
+	// operators that convert text (dates): the same text reaching two
+	// operators that accept different formats, in either order
+	for oi, o := range []drive.Opt{off, allOn} {
+		vars := []term.VarDecl{{Name: "b0", Ty: term.TB}, {Name: "s1", Ty: term.TS}}
+		ps = append(ps, &C7Prog{Name: fmt.Sprintf("text-converting-operators-%d", oi), Src: "(if b0 (+ (td_time s1) (t_time s1)) (+ (td_date s1) (t_date s1) (version s1)))", Vars: vars, Opt: o,
+			Calls: []C7Call{evalc("Eval#date-as-date", false, "2031-07-09"), evalc("Eval#date-as-time", true, "2031-07-09"),
+				evalc("Eval#time-as-time", true, "2031-07-09 10:11:12"), evalc("Eval#time-as-date", false, "2031-07-09 10:11:12"),
+				tryc("TryEval#date-as-time", nil, true, "2031-07-09"), evalc("Eval#version-as-date", false, "1.2.3"), evalc("Eval#version-as-time", true, "1.2.3")}})
+	}
 	// caller-side buffer reuse: the same backing array bound to a list variable
 	// in successive calls with different contents (lengths around the engine's
 	// large-list thresholds)
@@ -324,6 +375,21 @@ func C07Corpus() []*C7Prog {
 	return ps
 }
 
+// C07IsoMain: `check c07iso <program> <call>` — one call on a freshly compiled
+// program in this (fresh) process; the outcome is printed on stdout.
+func C07IsoMain(args []string) {
+	var pi, ci int
+	fmt.Sscan(args[0], &pi)
+	fmt.Sscan(args[1], &ci)
+	p := C07Corpus()[pi]
+	e, err := C7Compile(p)
+	if err != nil {
+		fmt.Print("ERR:", err)
+		return
+	}
+	fmt.Print("ISO:" + C7DoIso(e, p, p.Calls[ci]))
+}
+
 // C7Compile compiles a corpus program with per-call-logging operators.
 func C7Compile(p *C7Prog) (*eval.Expr, error) {
 	cfg := eval.NewConfig()
@@ -331,6 +397,7 @@ func C7Compile(p *C7Prog) (*eval.Expr, error) {
 		cfg.OperatorMap[name] = c7op(name, fn)
 	}
 	cfg.OperatorMap["rec"] = c7rec
+	cfg.OperatorMap["memo"] = c7memo
 	for i, v := range p.Vars {
 		cfg.VariableKeyMap[v.Name] = drive.KeyOf(i)
 	}
@@ -385,6 +452,23 @@ func c7do(e *eval.Expr, p *C7Prog, c C7Call, point func(string), bufs map[int]in
 	case "tableall":
 		return eval.DumpTable(e, false)
 	}
+	if c.Store != "" {
+		ctx := &eval.Ctx{Ctx: context.WithValue(context.Background(), c7levelKey{}, c.Level)}
+		if c.Store == "own" {
+			ctx.VariableFetcher = eval.NewMapVarFetcher(map[string]interface{}{})
+		}
+		if point != nil {
+			point("before:" + c.Name)
+		}
+		var v eval.Value
+		var err error
+		if c.Kind == "eval" {
+			v, err = e.Eval(ctx)
+		} else {
+			v, err = e.TryEval(ctx)
+		}
+		return fmt.Sprintf("%T(%v) err=%v", v, v, err)
+	}
 	f := &c7f{idx: map[string]int{}, vals: c7resolve(c.Vals, bufs), avail: c.Avail, point: point, expr: e}
 	for i, v := range p.Vars {
 		f.idx[v.Name] = i
@@ -431,24 +515,46 @@ func c07(r *rep.Run) {
 		depth, bound2, bound3 = 5, 5, 3
 		r.SetBudget(1800e9)
 	}
-	r.Rule = "one shared compiled Expr per corpus program (13 programs + 8 sequential-only programs whose list bindings reuse one caller-side buffer with changing contents, lengths 3/64/100/130; covering a re-entrant operator that evaluates its own expression, n-ary/binary/fast operators, cond, short-circuit chains, stack classes 8/16/large, large-list builtins, failures; events off/ReportEvent/Debug). (1) every sequential history of calls {Eval x bindings, TryEval x splits, Dump, DumpTable(skip/all)} up to the depth bound; (2) every interleaving of 2 threads x 1 call (all ordered pairs of evaluation calls), 2 threads x 2 calls and 3 threads x 1 call (all triples), each up to the stated preemption bound (iterative context bounding; executions always run to completion) under a cooperative scheduler whose points are the fetcher's Get/Cached, registered-operator entry, and call begin/end. Invariant after every call: the public view of the program (Dump + full DumpTable) is unchanged (changes of the reflective deep hash of the Expr are counted and reported, not judged: scratch state may live there); oracle per call: outcome (value, error, ordered fetch/operator trace, argument-buffer stability across a yield) equals the outcome of the same call in isolation on a freshly compiled program. (3) auxiliary: the same call menus free-running under the Go race detector. non-trivial = schedules with at least one context switch inside a call"
+	r.Rule = "one shared compiled Expr per corpus program (13 programs + a variable-free program whose operator keeps per-request state in the context's own store (contexts without a fetcher / with their own store) + text-converting operators fed the same text in either order + 8 sequential-only programs whose list bindings reuse one caller-side buffer with changing contents, lengths 3/64/100/130; covering a re-entrant operator that evaluates its own expression, n-ary/binary/fast operators, cond, short-circuit chains, stack classes 8/16/large, large-list builtins, failures; events off/ReportEvent/Debug). (1) every sequential history of calls {Eval x bindings, TryEval x splits, Dump, DumpTable(skip/all)} up to the depth bound; (2) every interleaving of 2 threads x 1 call (all ordered pairs of evaluation calls), 2 threads x 2 calls and 3 threads x 1 call (all triples), each up to the stated preemption bound (iterative context bounding; executions always run to completion) under a cooperative scheduler whose points are the fetcher's Get/Cached, registered-operator entry, and call begin/end. Invariant after every call: the public view of the program (Dump + full DumpTable) is unchanged (changes of the reflective deep hash of the Expr are counted and reported, not judged: scratch state may live there); oracle per call: outcome (value, error, ordered fetch/operator trace, argument-buffer stability across a yield) equals the outcome of the same call in isolation on a freshly compiled program IN A FRESH PROCESS. (3) auxiliary: the same call menus free-running under the Go race detector. non-trivial = schedules with at least one context switch inside a call"
 	r.Assume = []string{"scheduling granularity is the environment callback (fetcher, registered operator), not the machine instruction; state shared between calls with no callback in between is caught by the deep-dump invariant and the race pass only",
 		"weak-memory effects are outside a cooperative scheduler (race detector pass is the backstop)"}
 	progs := C07Corpus()
 	var mu sync.Mutex
 	outcomes := map[string]bool{}
 	// isolated outcomes
+	// Each isolated outcome comes from a FRESH PROCESS (`check c07iso`): state
+	// the library might keep at package level cannot be reset from inside, so
+	// an in-process baseline taken after other calls would inherit it.
 	iso := make([][]string, len(progs))
+	type isoJob struct{ pi, ci int }
+	var isoJobs []isoJob
 	for pi, p := range progs {
 		iso[pi] = make([]string, len(p.Calls))
-		for ci, c := range p.Calls {
-			e, err := C7Compile(p)
-			if err != nil {
-				r.Violate("compile", p.Name, sprintf("corpus program %s does not compile: %v", p.Name, err), map[string]interface{}{"source": p.Src})
-				r.Finish()
-			}
-			iso[pi][ci] = C7DoIso(e, p, c)
-			outcomes[iso[pi][ci]] = true
+		if _, err := C7Compile(p); err != nil {
+			r.Violate("compile", p.Name, sprintf("corpus program %s does not compile: %v", p.Name, err), map[string]interface{}{"source": p.Src})
+			r.Finish()
+		}
+		for ci := range p.Calls {
+			isoJobs = append(isoJobs, isoJob{pi, ci})
+		}
+	}
+	var isoFresh int64
+	r.ParallelFor(len(isoJobs), func(w, j int) {
+		pi, ci := isoJobs[j].pi, isoJobs[j].ci
+		out, err := exec.Command(os.Args[0], "c07iso", fmt.Sprint(pi), fmt.Sprint(ci)).Output()
+		if err == nil && strings.HasPrefix(string(out), "ISO:") {
+			iso[pi][ci] = strings.TrimPrefix(string(out), "ISO:")
+			atomic.AddInt64(&isoFresh, 1)
+			return
+		}
+		e, _ := C7Compile(progs[pi]) // fall back to the in-process baseline
+		iso[pi][ci] = C7DoIso(e, progs[pi], progs[pi].Calls[ci])
+	})
+	r.Cov["isolated_baselines_from_fresh_processes"] = isoFresh
+	r.Cov["isolated_baselines"] = len(isoJobs)
+	for pi := range iso {
+		for _, s := range iso[pi] {
+			outcomes[s] = true
 		}
 	}
 
@@ -521,10 +627,10 @@ func c07(r *rep.Run) {
 
 	// (2) schedules
 	type sjob struct {
-		pi     int
-		thr    [][]int // per thread: indices of calls
-		bound  int
-		shape  string
+		pi    int
+		thr   [][]int // per thread: indices of calls
+		bound int
+		shape string
 	}
 	var sjobs []sjob
 	for pi, p := range progs {
